@@ -288,7 +288,7 @@ class Check:
                "evaluations": self.evaluations, "distinct_nontrivial": len(self.distinct),
                "samples": self.samples or ["(none)"], "models": self.models,
                "exhaustive": self.exhaustive, "rule": self.extra.pop("rule", ""),
-               "known_findings_observed": sorted(self.known_seen)}
+               "known_findings_observed": sorted(self.known_seen), "notes": self.notes[:20]}
         cov.update(self.extra)
         ev = {"property_id": self.prop, "tier": self.tier, "seed": seed(), "level": self.level,
               "coverage": cov, "assumptions": self.assumptions, "wall_s": round(wall, 1),
